@@ -57,7 +57,8 @@ fn msg_bytes(id: u64, n: u64) -> Vec<u8> {
     let len = match n {
         1 => 5,
         2 => 25,
-        _ => 40,
+        3 => 40,
+        n => (10 + 17 * (n - 1)) as usize, // n segments whether or not acks are piggy-backed (n < 13)
     };
     (0..len).map(|i| if i == 0 { id as u8 } else if i == 1 { (id >> 8) as u8 } else { (id as usize * 7 + i) as u8 }).collect()
 }
@@ -73,6 +74,8 @@ struct World {
     in_msg: [bool; 2],
     /// segments accepted by the end since it last transmitted an acknowledgement
     unacked_rx: [usize; 2],
+    /// window the (well-behaved) initiator asks for
+    wnd: u8,
     panicked: bool,
 }
 fn ix(e: &str) -> usize {
@@ -101,6 +104,7 @@ impl World {
             est: [false, false],
             in_msg: [false, false],
             unacked_rx: [0, 0],
+            wnd: WND,
             panicked: false,
         };
         w.ends[0].set_initiator(true);
@@ -130,7 +134,7 @@ impl World {
                 let mut w = 0;
                 if h.hs {
                     if i == 0 && bytes.len() == 9 {
-                        bytes[8] = WND; // a peer asking for a small window (well-behaved)
+                        bytes[8] = self.wnd; // a peer asking for a small window (well-behaved)
                     } else if bytes.len() == 6 {
                         w = bytes[5];
                     }
@@ -283,9 +287,9 @@ impl World {
     /// Does the real state of end i satisfy what the class assumes (the model may have drifted)?
     fn applicable(&self, i: usize, cls: &str) -> bool {
         match cls {
-            "beginInMiddle" => self.est[i] && self.in_msg[i] && self.unacked_rx[i] < WND as usize,
+            "beginInMiddle" => self.est[i] && self.in_msg[i] && self.unacked_rx[i] < self.wnd as usize,
             "contWithoutBegin" | "finalShort" | "lenLessThanPayload" | "nonFinalShort" => self.est[i] && !self.in_msg[i],
-            "overrun" => self.est[i] && self.unacked_rx[i] >= WND as usize,
+            "overrun" => self.est[i] && self.unacked_rx[i] >= self.wnd as usize,
             "dataBeforeHandshake" => !self.est[i],
             "hsRespTinyMtu" | "hsRespZeroWindow" => i == 0 && !self.est[0],
             _ => self.est[i],
@@ -323,6 +327,12 @@ pub fn run(args: &[String]) -> i32 {
     let mut behaviours = read_ndjson(&beh);
     // harness-made schedules the model's bounds do not reach: sequence-number wrap (bulk) and window overrun
     behaviours.push(json!([{"op": "Bulk", "n": bulk}]));
+    let seed = arg_u64(args, "--seed", 1);
+    for r in 0..arg_u64(args, "--random-runs", 3) {
+        behaviours.push(json!([{"op": "Random", "n": arg_u64(args, "--random-steps", 4000), "seed": seed * 100 + r}]));
+    }
+    behaviours.push(json!([{"op": "PartialAcks", "e": "R", "n": arg_u64(args, "--partial-acks", 400)}]));
+    behaviours.push(json!([{"op": "PartialAcks", "e": "I", "n": arg_u64(args, "--partial-acks", 400)}]));
     behaviours.push(json!([{"op": "Overrun", "e": "R"}]));
     behaviours.push(json!([{"op": "Overrun", "e": "I"}]));
     let mut tr = Trace::create(&out);
@@ -363,6 +373,98 @@ pub fn run(args: &[String]) -> i32 {
                         w.settle(&mut tr);
                         if k % 37 == 0 {
                             sim::advance_us(16_000_000);
+                            w.settle(&mut tr);
+                        }
+                    }
+                    true
+                }
+                "Random" => {
+                    // seeded random scheduling of the same steps, long enough to cross the 8-bit sequence wrap with
+                    // segments in flight on both sides of it (partial acknowledgements included)
+                    let mut rng = crate::util::Rng::new(op["seed"].as_u64().unwrap());
+                    let n = op["n"].as_u64().unwrap();
+                    let mut next_id = [100_000u64, 200_000u64];
+                    for k in 0..n {
+                        if w.panicked {
+                            break;
+                        }
+                        // deliveries and fetches are favoured so that the two send windows rarely exhaust at the same time
+                        // (that is a dead end of the protocol itself: nobody can acknowledge any more)
+                        match rng.below(20) {
+                            0 | 1 => {
+                                let i = rng.below(2) as usize;
+                                if w.send(&mut tr, i, next_id[i], 1 + rng.below(3)) {
+                                    next_id[i] += 1;
+                                }
+                            }
+                            2..=6 => {
+                                w.poll(&mut tr, rng.below(2) as usize);
+                            }
+                            7..=14 => {
+                                let i = rng.below(2) as usize;
+                                if w.deliver(&mut tr, i).is_none() {
+                                    w.deliver(&mut tr, 1 - i);
+                                }
+                            }
+                            _ => {
+                                let i = rng.below(2) as usize;
+                                if !w.fetch(&mut tr, i) {
+                                    w.fetch(&mut tr, 1 - i);
+                                }
+                            }
+                        }
+                        if k % 500 == 499 {
+                            sim::advance_us(16_000_000);
+                            w.settle(&mut tr);
+                        }
+                    }
+                    true
+                }
+                "PartialAcks" => {
+                    // deterministic sweep: a full window in flight, only the first segment delivered and acknowledged
+                    // (after the ack timeout), more data queued - repeated across several sequence-number wraps with
+                    // shifting alignment
+                    let n = op["n"].as_u64().unwrap();
+                    w.wnd = 6; // a wider window: several segments in flight while one is acknowledged
+                    let s = i; // the sending end under observation
+                    let p = 1 - i;
+                    let mut id = 300_000u64;
+                    w.settle(&mut tr);
+                    for k in 0..n {
+                        if w.panicked {
+                            break;
+                        }
+                        // near the wrap, pad with one-segment messages so that the window in flight straddles it
+                        // (first segment 255 or 254, alternating)
+                        let next = (w.last_tx_seq[s] + 1).rem_euclid(256);
+                        if (236..254).contains(&next) {
+                            let target = if (k / 3) % 2 == 0 { 255 } else { 254 };
+                            let mut guard = 0;
+                            while (w.last_tx_seq[s] + 1).rem_euclid(256) != target && guard < 40 {
+                                w.send(&mut tr, s, id, 1);
+                                id += 1;
+                                w.settle(&mut tr);
+                                guard += 1;
+                            }
+                        }
+                        w.send(&mut tr, s, id, 10 + k % 3);
+                        id += 1;
+                        for _ in 0..6 {
+                            w.poll(&mut tr, s);
+                        }
+                        w.deliver(&mut tr, p);
+                        sim::advance_us(16_000_000);
+                        w.poll(&mut tr, p); // the peer's ack timer fired: acknowledges the first segment only
+                        while w.chan[s].len() > 0 {
+                            w.deliver(&mut tr, s);
+                        }
+                        for _ in 0..8 {
+                            w.poll(&mut tr, s); // with a correct window only part of the rest may go out
+                        }
+                        w.settle(&mut tr);
+                        if k % 7 == 6 {
+                            w.send(&mut tr, s, id, 1);
+                            id += 1;
                             w.settle(&mut tr);
                         }
                     }
